@@ -240,6 +240,7 @@ impl Family for AsyncFam {
             GOp::IsFinished(_) => Some("no-scheduling-point-before:JoinHandle::is_finished"),
             GOp::PollJoin(_) => Some("no-scheduling-point-before:JoinHandle::poll"),
             GOp::Detach(_) => Some("no-scheduling-point-before:drop(JoinHandle)"),
+            GOp::Op(AsOp::Park) => Some("no-scheduling-point-before:thread::park"),
             _ => None,
         }
     }
